@@ -1,2 +1,352 @@
-(* Property C16 - statements only (proofs in Proofs/C16.v). Not built yet. *)
-From SC.Model Require Import Base.
+(* Property C16 - blanks, comments and the letter case of keywords never change a value.
+   STATEMENTS ONLY (proofs: Proofs/C16.v).
+
+   Model functions: Lexer.whitespace_body / comment_body / cleanup / month_parser / run_parser (timezone) / alias_apply,
+   Post.token_generator / token_cleaner, Rules.update_token_variables / dyn_loop / rule_tokinizer, Match.token_match /
+   token_field_compare / info_eq / info_eq_token / variable_compare, RuleFns.call_rule / read_currency,
+   Api.tokinize / execute_text, Run64.exec64.
+   Definitions from Proofs/C16.v:
+     typed t / untyped t           ti_ty t <> None / = None
+     extends_untyped st st'        st' = st plus token_infos without a type
+     same_tok a b                  a and b have the same type and status (start, end, text are free)
+     same_tokens, same_state       pointwise on lists / on the ts_infos of two lexer states
+     fields_sim                    the same for the field maps handed to the rule functions
+     rel_exact R r1 r2             both Ok and related by R, or the same panic
+     rel_res R r1 r2               rel_exact, or one side is the panic of the highlighting bookkeeping (UI_SITE = 1701:
+                                   ui_token.rs update_tokens drains an inverted range) - the only thing after the lexer
+                                   that reads positions
+     lexed cfg lang line           the lexer part of Api.tokinize (month parser, regex parsers, aliases)
+     post_lexer ...                the rest of Api.tokinize (variables, units, rules, token list)
+     obs_result o                  (value or error, token list) of a line result: not the highlighting, not the infos
+     same_lower a a'               to_lowercase a = to_lowercase a' (two spellings of one word)
+     values lang text              through Run64.exec64 with the loaded default configuration on 28 Sep 2026: for every
+                                   line nothing / error message / result ast (not the printed text)
+     agree lang orig [r1; ..]      values of every rewriting ri = values of orig, and orig evaluates to a value on every line
+
+   WHAT IS PROVED FOR ALL INPUTS: blanks and comments never reach the token list (C16_untyped_..); after the lexer only
+   the sequence of (type, status) of the token_infos matters (C16_positions_..: all lines, all configurations, all variable
+   environments); every comparison of a keyword class goes through case-mapped copies (C16_case_..).
+   WHAT IS PROVED FOR FAMILIES ONLY (vm_compute): blank-only lines up to 80 blanks, comment-only lines for 32 comment
+   texts, original vs rewritten lines per feature area (C16_blank_only, C16_comment_only, C16_pipeline_..).
+   NOT PROVED (covered by the correspondence check only): the lexical step - that inserting blanks at a token boundary of
+   an arbitrary line, or appending `# text`, leaves the typed token sequence produced by the regexes unchanged; it needs
+   a context lemma for every regex of config.json (C16_full_partial keeps the statement).
+   KNOWN FINDINGS C16-K1 / C16-K2 (C16_sign_in_literal_refuted): the number syntax [-+]?[0-9]+ reads a sign written
+   directly in front of a digit into the literal, so `a-b` and `a - b` are different token sequences. *)
+From Coq Require Import Floats.
+From SC.Model Require Import Base Num NumF64 Types Config Case Chrono UiTokens Rx Match Post Parser Items Interp RuleFns
+     Rules Format Lexer Api Run64.
+From SC.Proofs Require Import C16.
+
+Section WithNum.
+Context {F : Type} {NF : Num F}.
+
+(* ---- blanks and comments are token_infos without a type and are dropped ---- *)
+Theorem C16_untyped_whitespace : forall line c cp (st st' : @Rules.tstate F),
+  whitespace_body line c cp st = Ok st' -> extends_untyped st st'.
+Proof. exact whitespace_body_untyped. Qed.
+
+Theorem C16_untyped_comment : forall line c cp (st st' : @Rules.tstate F),
+  comment_body line c cp st = Ok st' -> extends_untyped st st'.
+Proof. exact comment_body_untyped. Qed.
+
+Theorem C16_untyped_dropped_by_cleanup : forall st : @Rules.tstate F, Forall typed (ts_infos (cleanup st)).
+Proof. exact cleanup_typed. Qed.
+
+Theorem C16_untyped_dropped : forall (infos : list (token_info F)) t,
+  In t (token_generator infos) <-> exists ti, In ti infos /\ ti_active ti = true /\ ti_ty ti = Some t.
+Proof. exact token_generator_in. Qed.
+
+Theorem C16_untyped_skipped : forall (a b : list (token_info F)) ti,
+  ti_ty ti = None \/ ti_active ti = false -> token_generator (a ++ ti :: b) = token_generator (a ++ b).
+Proof. exact token_generator_skips. Qed.
+
+(* ---- after the lexer only the sequence of typed tokens matters ---- *)
+Theorem C16_positions_variables : forall line1 line2 (vs : vars F) st1 st2, same_state st1 st2 ->
+  rel_res (rel_option same_state) (update_token_variables line1 vs st1) (update_token_variables line2 vs st2).
+Proof. exact update_token_variables_sim. Qed.
+
+Theorem C16_positions_units : forall fuel line1 line2 cfg (vs : vars F) st1 st2, same_state st1 st2 ->
+  rel_res (rel_option same_state) (dyn_loop fuel line1 cfg vs st1) (dyn_loop fuel line2 cfg vs st2).
+Proof. exact dyn_loop_sim. Qed.
+
+Theorem C16_positions_call_rule : forall bexec yr cfg lang (vs : vars F) fname fs1 fs2, fields_sim fs1 fs2 ->
+  call_rule bexec yr cfg lang vs fname fs1 = call_rule bexec yr cfg lang vs fname fs2.
+Proof. exact call_rule_sim. Qed.
+
+Theorem C16_positions_rules : forall bexec yr fuel line1 line2 cfg lang (vs : vars F) st1 st2, same_state st1 st2 ->
+  rel_res (rel_option same_state) (rule_tokinizer bexec yr fuel line1 cfg lang vs st1)
+                                  (rule_tokinizer bexec yr fuel line2 cfg lang vs st2).
+Proof. exact rule_tokinizer_sim. Qed.
+
+Theorem C16_positions_token_list : forall (l1 l2 : list (token_info F)) ts, same_tokens l1 l2 ->
+  token_generator l1 = token_generator l2 /\ token_cleaner l1 ts = token_cleaner l2 ts.
+Proof. intros l1 l2 ts H. split; [apply token_generator_sim, H|apply token_cleaner_sim, H]. Qed.
+
+(* Api.tokinize = lexer ; post_lexer, and post_lexer reads the line for highlighting only *)
+Theorem C16_tokinize_split : forall lx ck (cfg : config F) lang vs line,
+  tokinize lx ck cfg lang vs line = bind (lexed lx ck cfg lang line) (post_lexer lx ck cfg lang vs line).
+Proof. exact tokinize_split. Qed.
+
+Theorem C16_positions_irrelevant : forall lx ck (cfg : config F) lang vs line1 line2 st1 st2, same_state st1 st2 ->
+  rel_res tok_sim (post_lexer lx ck cfg lang vs line1 st1) (post_lexer lx ck cfg lang vs line2 st2).
+Proof. exact post_lexer_sim. Qed.
+
+(* two lines whose lexed token_infos agree in type and status evaluate to the same value (or error), leave the same
+   variables and panic alike - up to the panic of the highlighting bookkeeping *)
+Theorem C16_positions_execute_text : forall lx ck (cfg : config F) lang vs line1 line2,
+  line1 <> [] -> line2 <> [] ->
+  rel_res same_state (lexed lx ck cfg lang line1) (lexed lx ck cfg lang line2) ->
+  rel_res exec_sim (execute_text lx ck cfg lang vs line1) (execute_text lx ck cfg lang vs line2).
+Proof. exact execute_text_sim. Qed.
+
+(* ---- the comparisons of the keyword classes ---- *)
+(* connectives and variable names: literal words of rule patterns / variable definitions against words of the line *)
+Theorem C16_case_token_match : forall a a' (r : token F), same_lower a a' ->
+  token_match (TText a) r = token_match (TText a') r /\ token_match r (TText a) = token_match r (TText a').
+Proof. intros a a' r H. split; [apply token_match_same_lower_l, H|apply token_match_same_lower_r, H]. Qed.
+
+(* {TEXT:name:word} and {GROUP:name:group} fields (to in as into; unix; date ...) *)
+Theorem C16_case_field_compare : forall a a' f, same_lower a a' ->
+  token_field_compare (TText a : token F) f = token_field_compare (TText a' : token F) f.
+Proof. exact field_compare_same_lower. Qed.
+
+(* a word of the line against ANY rule / unit pattern token (rule loop, unit recognition) *)
+Theorem C16_case_info_eq : forall (t t' p : token_info F) a a', same_lower a a' ->
+  ti_ty t = Some (TText a) -> ti_ty t' = Some (TText a') -> ti_active t = ti_active t' ->
+  info_eq t p = info_eq t' p.
+Proof. exact info_eq_same_lower. Qed.
+
+(* variable names: use side (a word of the line) and definition side (a word of the stored name tokens) *)
+Theorem C16_case_variable_use : forall (t t' : token_info F) p a a', same_lower a a' ->
+  ti_ty t = Some (TText a) -> ti_ty t' = Some (TText a') -> info_eq_token t p = info_eq_token t' p.
+Proof. exact info_eq_token_same_lower. Qed.
+
+Theorem C16_case_variable_definition : forall (t : token_info F) a a', same_lower a a' ->
+  info_eq_token t (TText a) = info_eq_token t (TText a').
+Proof. exact info_eq_token_same_lower_pat. Qed.
+
+Theorem C16_case_variable_symbol : forall (vs : vars F) (p : token_info F) a a', same_lower a a' ->
+  variable_compare vs p (ASymbol a) = variable_compare vs p (ASymbol a').
+Proof. exact variable_compare_same_lower. Qed.
+
+(* currency codes and aliases *)
+Theorem C16_case_currency : forall (cfg : config F) a a', same_lower a a' -> read_currency cfg a = read_currency cfg a'.
+Proof. exact read_currency_same_lower. Qed.
+
+(* word operators and other aliases (times, minus, euro): matched on the lower-cased token text *)
+Theorem C16_case_alias : forall lx today (cfg : config F) aliases (t t' : token_info F),
+  same_lower (ti_text t) (ti_text t') -> ti_ty t = ti_ty t' -> ti_active t = ti_active t' ->
+  rel_exact same_tok (alias_apply lx today cfg aliases t) (alias_apply lx today cfg aliases t').
+Proof. exact alias_apply_same_lower. Qed.
+
+(* month names: the month parser sees the lower-cased line; zone names: the zone parser sees the upper-cased line *)
+Theorem C16_case_month : forall lx (cfg : config F) lang line line', to_lowercase line = to_lowercase line' ->
+  forall st st', same_infos st st' ->
+  rel_exact same_infos (month_parser lx cfg lang line st) (month_parser lx cfg lang line' st').
+Proof. exact month_parser_reads_lowercase. Qed.
+
+Theorem C16_case_zone : forall today (cfg : config F) lang line line' regexes, to_uppercase line = to_uppercase line' ->
+  forall st st', same_infos st st' ->
+  rel_exact same_infos (run_parser today cfg lang line (s "timezone") regexes st)
+                       (run_parser today cfg lang line' (s "timezone") regexes st').
+Proof. exact timezone_parser_reads_uppercase. Qed.
+
+End WithNum.
+
+(* ---- blank-only and comment-only lines (finite families through the whole model) ---- *)
+Theorem C16_blank_only : blank_only_upto 80 = true.
+Proof. exact blank_only_80. Qed.
+
+Theorem C16_comment_only : comment_only_all = true.
+Proof. exact comment_only_family. Qed.
+
+Theorem C16_noise_between_lines :
+  values "en" "v = 7
+   
+# v = 9
+v * 3
+  # march
+v + 1" = Some [Some (inr (AItem (INumber 7%float Decimal))); None; None; Some (inr (AItem (INumber 21%float Decimal))); None;
+               Some (inr (AItem (INumber 8%float Decimal)))].
+Proof. exact noise_between. Qed.
+
+(* ---- original vs rewritten lines through the whole model ---- *)
+Local Open Scope string_scope.
+
+Theorem C16_pipeline_arith :
+  agree "en" "3 + 4 * 2" ["3  +   4 *  2"; "  3 + 4 * 2   "; "3 + 4 * 2 # 5 + 3"; "3 + 4 * 2# march 2020"; "3+4*2";
+                          " 3+4 *2  #  x = 9"] /\
+  agree "en" "(1 + 2) * 3" ["( 1 + 2 ) * 3"; "(  1+2  )*3"; "(1 + 2) * 3 # )"; "  ( 1 + 2 )   *   3  "] /\
+  agree "en" "2 times 3" ["2 TIMES 3"; "2   Times   3"; "2 times 3 # times"] /\
+  agree "en" "8 / 2 - 1" ["8/2-1"; "8 /2 -1"; "8  /  2  -  1   "; "8 / 2 - 1 #- 1"] /\
+  agree "en" "0x1F + 1" ["0x1F  +  1"; "0x1F+1"; " 0x1F + 1 # 0x10"] /\
+  agree "en" "255 to hex" ["255 TO hex"; "255  To   hex"; "255 to hex # to hex"; "  255 to hex"].
+Proof. exact pipeline_arith. Qed.
+
+Theorem C16_pipeline_percent :
+  agree "en" "10% of 50" ["10% OF 50"; "10%   Of  50"; "10% of 50 # 50%"; " 10% of 50 "] /\
+  agree "en" "10% on 50" ["10% ON 50"; "10%  on   50"; "10% on 50#on"] /\
+  agree "en" "10% off 50 usd" ["10% OFF 50 USD"; "10%  oFf  50   Usd"; "10% off 50 usd  # $5"] /\
+  agree "en" "50 + 10%" ["50  +  10%"; "50+10%"; "  50 + 10%  "; "50 + 10% # 1k"] /\
+  agree "en" "10 is what % of 50" ["10 IS WHAT % OF 50"; "10 Is  What  %  oF 50"; "10 is what%of 50"; "10 is what % of 50 # of what"] /\
+  agree "en" "5 is 10% of what" ["5 IS 10% OF WHAT"; "5  is  10%  of  what  "; "5 is 10% of what #what"].
+Proof. exact pipeline_percent. Qed.
+
+Theorem C16_pipeline_money :
+  agree "en" "10 usd" ["10 USD"; "10 Usd"; "10    usd"; " 10 usd # usd"; "10 uSD  "] /\
+  agree "en" "10 dollar" ["10 DOLLAR"; "10 Dollar"; "10   dollar"] /\
+  agree "en" "10 usd to try" ["10 USD TO TRY"; "10 Usd tO tRy"; "10  usd   to  try"; "10 usd to try # 10 usd to try";
+                              "   10 usd to try"; "10 usd to Tl"; "10 usd IN try"] /\
+  agree "en" "10 usd + 5 eur" ["10 USD + 5 EUR"; "10 usd+5 eur"; "10  usd  +  5  euro"; "10 usd + 5 eur #+"] /\
+  agree "en" "$10 + 5%" ["$10  +  5%"; " $10 + 5% "; "$10 + 5% # $5"] /\
+  agree "en" "10 euro as usd" ["10 EURO AS USD"; "10 Euro  As  Usd"; "10 euro as usd # euro"].
+Proof. exact pipeline_money. Qed.
+
+Theorem C16_pipeline_dates :
+  agree "en" "3 march 2020" ["3 MARCH 2020"; "3 March 2020"; "3   mArCh   2020"; "3 march 2020 # march 2020"; "  3 march 2020  ";
+                             "3 march 2020#jan"] /\
+  agree "en" "march 3, 2020" ["MARCH 3, 2020"; "March   3,   2020"; "march 3, 2020 # ,"] /\
+  agree "en" "3/4/2020" ["3 / 4 / 2020"; "3/ 4 /2020"; " 3/4/2020 # /"] /\
+  agree "en" "3 march 2020 + 5 days" ["3 MARCH 2020 + 5 days"; "3  march  2020  +  5  days"; "3 march 2020+5 days";
+                                      "3 march 2020 + 5 days # - 1"] /\
+  agree "en" "3 march 2020 - 2 months" ["3 Mar 2020 - 2 months"; "3 march 2020   -   2 months"; "3 march 2020 - 2 months #jan"] /\
+  agree "en" "1 jan 2020 to 5 feb 2020" ["1 JAN 2020 TO 5 FEB 2020"; "1 Jan 2020   To   5 Feb 2020"; "1 jan 2020 to 5 feb 2020 # to"] /\
+  agree "en" "5 march 2020 at 12:30" ["5 MARCH 2020 AT 12:30"; "5 march 2020   At   12:30"; "5 march 2020 at 12:30 # at"] /\
+  agree "en" "17 jul" ["17 JUL"; "17   Jul"; "17 jul # 2020"; "  17 jul"].
+Proof. exact pipeline_dates. Qed.
+
+Theorem C16_pipeline_times :
+  agree "en" "12:30 est" ["12:30 EST"; "12:30 Est"; "12:30    eSt"; "12:30 est # gmt"; " 12:30 est "] /\
+  agree "en" "12:30 EST to GMT" ["12:30 est to gmt"; "12:30 Est TO Gmt"; "12:30  EST   to   GMT"; "12:30 EST to GMT # cet";
+                                 "12:30 EST in GMT"; "12:30 EST As gmt"] /\
+  agree "en" "12:30 gmt+3" ["12:30 GMT+3"; "12:30   Gmt+3"; "12:30 gmt+3 # GMT+3"] /\
+  agree "en" "12:30 to 14:00" ["12:30 TO 14:00"; "12:30   to   14:00"; "12:30 to 14:00 # 12:30 pm"] /\
+  agree "en" "3 pm + 2 hours" ["3 pm  +  2 hours"; "3 pm+2 hours"; "  3 pm + 2 hours  # 3 pm"] /\
+  agree "en" "1600000000 to date" ["1600000000 TO DATE"; "1600000000   To   Date"; "1600000000 to date # date"] /\
+  agree "en" "1600000000 to est" ["1600000000 TO EST"; "1600000000 to Est"; "1600000000  to  est  "] /\
+  agree "en" "12:30 est to unix" ["12:30 EST TO UNIX"; "12:30 est  To  Unix"; "12:30 est to unix # unix"].
+Proof. exact pipeline_times. Qed.
+
+Theorem C16_pipeline_durations_units :
+  agree "en" "1 hour 5 minutes" ["1  hour   5  minutes"; "  1 hour 5 minutes  "; "1 hour 5 minutes # 2 hours"] /\
+  agree "en" "3 days + 1 week" ["3 days  +  1 week"; "3 days+1 week"; "3 days + 1 week #week"] /\
+  agree "en" "2 hours as minutes" ["2 hours AS minutes"; "2 hours   As   minutes"; "2 hours TO minutes"; "2 hours as minutes # as"] /\
+  agree "en" "10 km to m" ["10 km TO m"; "10 km   To   m"; "10  km  to  m"; "10 km to m # cm"; "10 km INTO m"] /\
+  agree "en" "5 kb to mb" ["5 kb TO mb"; "5   kb   to   mb  "; "5 kb to mb#gb"] /\
+  agree "en" "10 km + 5 m" ["10 km  +  5 m"; "10 km+5 m"; " 10 km + 5 m # m"].
+Proof. exact pipeline_durations_units. Qed.
+
+Theorem C16_pipeline_variables :
+  agree "en" "x = 3
+x + 1" ["X = 3
+x + 1"; "x = 3
+X + 1"; "x=3
+x+1"; "  x  =  3  
+  x  +  1  "; "x = 3 # x = 9
+x + 1 # x"] /\
+  agree "en" "my var = 10 usd
+my var to try
+my var + 5%" ["My Var = 10 usd
+my var to try
+MY VAR + 5%"; "my var = 10 USD
+my var TO Try
+my var + 5%"; "my   var   =   10 usd
+my  var  to  try
+my var  +  5%"; "my var = 10 usd # my var
+my var to try # try
+my var + 5% # 5%"] /\
+  agree "en" "price = 12:30 est
+price to gmt" ["PRICE = 12:30 EST
+Price To Gmt"; "price=12:30 est
+  price   to   gmt  # est"] /\
+  agree "en" "d = 3 march 2020
+d + 2 days" ["d = 3 MARCH 2020
+D + 2 days"; "d  =  3  march  2020   # march
+d+2 days"].
+Proof. exact pipeline_variables. Qed.
+
+Theorem C16_pipeline_tr :
+  agree "tr" "10 usd try" ["10 USD TRY"; "10   Usd   Try"; "10 usd try # try"] /\
+  agree "tr" "5 mart 2020" ["5 MART 2020"; "5   Mart   2020"; "5 mart 2020 # mart"; "  5 mart 2020 "] /\
+  agree "tr" "5 mart 2020 + 3 hafta" ["5 MART 2020 + 3 hafta"; "5 mart 2020+3 hafta"; "5  mart  2020  +  3  hafta # ay"] /\
+  agree "tr" "3 kere 4" ["3 KERE 4"; "3   Kere   4"; "3 kere 4 # kere"] /\
+  agree "tr" "50 + 10%" ["50+10%"; "  50  +  10%  # 5"].
+Proof. exact pipeline_tr. Qed.
+
+(* ---- known findings C16-K1 / C16-K2: a sign directly in front of a digit is read into the literal ---- *)
+Theorem C16_sign_in_literal_refuted :
+  values "en" "12 jul 1997-1 year" <> values "en" "12 jul 1997 - 1 year" /\
+  evaluates "en" "12 jul 1997-1 year" = true /\ evaluates "en" "12 jul 1997 - 1 year" = true /\
+  values "en" "1600000000+60 to date" <> values "en" "1600000000 + 60 to date" /\
+  evaluates "en" "1600000000+60 to date" = true /\
+  values "en" "5+3 km" <> values "en" "5 + 3 km" /\ evaluates "en" "5+3 km" = true /\
+  agree "en" "12 jul 1997-5 days" ["12 jul 1997 - 5 days"] /\ agree "en" "10 usd-5 usd" ["10 usd - 5 usd"] /\
+  agree "en" "12:30-2 hours" ["12:30 - 2 hours"] /\ agree "en" "8-2*3" ["8 - 2 * 3"].
+Proof. exact sign_in_literal_refuted. Qed.
+
+(* words outside the classes the statement lists are compared as written; a blank inside a literal is not between tokens *)
+Theorem C16_unlisted_classes_case_sensitive :
+  values "en" "1 Hour 5 Minutes" <> values "en" "1 hour 5 minutes" /\
+  values "en" "100 to Hex" <> values "en" "100 to hex" /\
+  values "en" "5 kb to MB" <> values "en" "5 kb to mb" /\
+  values "en" "Today" <> values "en" "today" /\
+  values "en" "3  pm" <> values "en" "3 pm".
+Proof. exact unlisted_classes_case_sensitive. Qed.
+
+(* ---- the full statement, and what of it is proved ---- *)
+(* [Rewriting line line'] is left abstract: any relation between an evaluable line and a line obtained from it by the
+   rewritings of the statement.  The full property is FullC16 below.  Proved here: it follows for every pair of lines
+   whose LEXED token_infos agree in type and status (C16_full_partial) - so the whole property is reduced to the lexical
+   step `Rewriting line line' -> lexed lines agree`, which is not proved (tie + families above) and is FALSE for the
+   sign-in-literal cases of C16_sign_in_literal_refuted. *)
+Definition FullC16 {F} {NF : Num F} (Rewriting : str -> str -> Prop) : Prop :=
+  forall lx ck (cfg : config F) lang vs line line', Rewriting line line' ->
+  rel_res exec_sim (execute_text lx ck cfg lang vs line) (execute_text lx ck cfg lang vs line').
+
+Theorem C16_full_partial : forall {F} {NF : Num F} (Rewriting : str -> str -> Prop),
+  (forall line line', Rewriting line line' -> line <> [] /\ line' <> [] /\
+     forall lx ck (cfg : config F) lang, rel_res same_state (lexed lx ck cfg lang line) (lexed lx ck cfg lang line')) ->
+  FullC16 Rewriting.
+Proof.
+  intros F NF Rewriting Hlex lx ck cfg lang vs line line' HR.
+  destruct (Hlex line line' HR) as (N1 & N2 & Hl). apply execute_text_sim; [exact N1|exact N2|apply Hl].
+Qed.
+
+Print Assumptions C16_untyped_whitespace.
+Print Assumptions C16_untyped_comment.
+Print Assumptions C16_untyped_dropped_by_cleanup.
+Print Assumptions C16_untyped_dropped.
+Print Assumptions C16_untyped_skipped.
+Print Assumptions C16_positions_variables.
+Print Assumptions C16_positions_units.
+Print Assumptions C16_positions_call_rule.
+Print Assumptions C16_positions_rules.
+Print Assumptions C16_positions_token_list.
+Print Assumptions C16_tokinize_split.
+Print Assumptions C16_positions_irrelevant.
+Print Assumptions C16_positions_execute_text.
+Print Assumptions C16_case_token_match.
+Print Assumptions C16_case_field_compare.
+Print Assumptions C16_case_info_eq.
+Print Assumptions C16_case_variable_use.
+Print Assumptions C16_case_variable_definition.
+Print Assumptions C16_case_variable_symbol.
+Print Assumptions C16_case_currency.
+Print Assumptions C16_case_alias.
+Print Assumptions C16_case_month.
+Print Assumptions C16_case_zone.
+Print Assumptions C16_blank_only.
+Print Assumptions C16_comment_only.
+Print Assumptions C16_noise_between_lines.
+Print Assumptions C16_pipeline_arith.
+Print Assumptions C16_pipeline_percent.
+Print Assumptions C16_pipeline_money.
+Print Assumptions C16_pipeline_dates.
+Print Assumptions C16_pipeline_times.
+Print Assumptions C16_pipeline_durations_units.
+Print Assumptions C16_pipeline_variables.
+Print Assumptions C16_pipeline_tr.
+Print Assumptions C16_sign_in_literal_refuted.
+Print Assumptions C16_unlisted_classes_case_sensitive.
+Print Assumptions C16_full_partial.
